@@ -16,6 +16,7 @@ import RdfModel.Proofs.C01RJDec
 import RdfModel.Proofs.C01RJNext
 import RdfModel.Proofs.C01RJNest
 import RdfModel.Proofs.C01RJRound
+import RdfModel.Proofs.C01RJGrammar
 namespace RdfModel.C01RJ
 open RdfModel RdfModel.RJ
 open scoped List
@@ -61,6 +62,21 @@ theorem relabel_injective (label : β → List Nat) (hinj : Function.Injective l
   simp only [relabel, Triple.map, Triple.mk.injEq] at h
   obtain ⟨h1, h2, h3⟩ := h
   rw [hterm h1, hterm h2, hterm h3]
+
+/-- The token stream the encoder writes is a grammatical RDF/JSON document: accepted by the
+    independent recogniser `Spec.RJG.accepts` (W3C note §3: `{ "S" : { "P" : [ O ] } }`, object
+    records with `type` ∈ uri/literal/bnode and `value`, optional non-empty `lang` or `datatype`
+    on literals only, no duplicate members, strict commas).  Grammaticality of the *bytes* as JSON
+    text is outside the model: the harness checks it with the real strict tokenizer on every
+    generated dataset and feeds the real tokens to this recogniser. -/
+theorem rdfjson_output_grammatical (label : β → List Nat) (ts : List (Triple β))
+    (hwf : ∀ t ∈ ts, WFTriple t) :
+    Spec.RJG.accepts (encodeTokens (addAll label ts)) = true :=
+  Proofs.C01RJ.output_grammatical label ts hwf
+
+/-- The recogniser is not trivial: it refuses what the lenient decoder lets through. -/
+example : Spec.RJG.accepts [.beginObject, .valueSep, .endObject] = false ∧
+    parseRoot .current [.beginObject, .valueSep, .endObject] .eof = .done [] .clean := by decide
 
 /-- Non-vacuity: a dataset with shared blank nodes, every kind of literal, odd strings. -/
 def Witness.label : Nat → List Nat := fun n => [0x62, 0x30 + n]     -- "b0", "b1", …
